@@ -375,6 +375,16 @@ def obligations(tier):
             for perm in itertools.permutations(range(n)):
                 for inv in (False, True):
                     obs.append(ob_row_only_operator(d, perm, inv, 2))
+    # (d') many subsystems (9..12), all but two or three of dimension 1
+    import random as _rnd
+    rr = _rnd.Random(12)
+    for dims_ in ([1, 2, 1, 1, 1, 1, 1, 1, 3], [2, 1, 1, 1, 1, 1, 1, 1, 3, 1], [1, 3, 1, 1, 2, 1, 1, 1, 1, 1, 1, 2]):
+        for _ in range(4 if not T else 12):
+            perm = list(range(len(dims_)))
+            rr.shuffle(perm)
+            for inv in (False, True):
+                obs.append(ob_matrix(tuple(dims_), tuple(dims_), tuple(perm), False, inv, "flat"))
+                obs.append(ob_vector(tuple(dims_), tuple(perm), inv, False))
     # (e) swap
     for n in [2, 3] + ([4] if T else []):
         vals = [1, 2, 3] if n < 4 else [1, 2]
